@@ -472,7 +472,11 @@ def c03(sc, V):
                     got = set(m[1] for m in s.lines if m[0] == "sig" and m[2] == l[2])
                     lost = [k for k in kids if k not in got]
                     if lost:
-                        f.append({"sig": "children-sigkill-lost" if is_final else "children-stop-signal-lost", "step": s.n,
+                        # F20: the children are looked up again through the worker after it got the signal; when
+                        # the signal killed it at once they are re-parented and no longer found (own signature)
+                        parent_gone = not alive(s.snap.kernel.get(l[1], ("g", None))[0])
+                        f.append({"sig": "children-signal-lost-worker-died-first" if parent_gone else
+                                  ("children-sigkill-lost" if is_final else "children-stop-signal-lost"), "step": s.n,
                                   "msg": "children %r of worker %d did not get signal %d" % (lost, l[1], l[2])})
     return f
 
